@@ -469,9 +469,9 @@ impl<'b, A: Adapter> Sess<'b, A> {
         {
             let cmap: BTreeMap<&String, &LabeledCommitment<Comm<A>>> =
                 comms.iter().map(|c| (c.label(), c)).collect();
-            let mut groups: BTreeMap<&String, (&A::Pt, BTreeSet<&String>)> = BTreeMap::new();
+            let mut groups: BTreeMap<(&String, &A::Pt), (&A::Pt, BTreeSet<&String>)> = BTreeMap::new();
             for (l, (pl, pt)) in qs.iter() {
-                groups.entry(pl).or_insert((pt, BTreeSet::new())).1.insert(l);
+                groups.entry((pl, pt)).or_insert((pt, BTreeSet::new())).1.insert(l);
             }
             if groups.len() != proof.len() {
                 return None;
@@ -532,9 +532,9 @@ impl<'b, A: Adapter> Sess<'b, A> {
             }
             Stmt::Batch { comms, qs, evals, proof } => {
                 let cmap: BTreeMap<&String, &LabeledCommitment<Comm<A>>> = comms.iter().map(|c| (c.label(), c)).collect();
-                let mut groups: BTreeMap<&String, (&A::Pt, BTreeSet<&String>)> = BTreeMap::new();
+                let mut groups: BTreeMap<(&String, &A::Pt), (&A::Pt, BTreeSet<&String>)> = BTreeMap::new();
                 for (l, (pl, pt)) in qs.iter() {
-                    groups.entry(pl).or_insert((pt, BTreeSet::new())).1.insert(l);
+                    groups.entry((pl, pt)).or_insert((pt, BTreeSet::new())).1.insert(l);
                 }
                 if groups.len() != proof.len() {
                     return "reject".into();
@@ -785,6 +785,28 @@ pub fn apply_adv<A: Adapter>(
                 }
             }
         }
+        // ---- one query moved to another point under its old point label (which then names two points); the
+        // evaluation claimed at the new point is the true one ("true") or off by delta ("plus") ----
+        "repoint_query" => match st {
+            Stmt::Batch { qs, evals, .. } => {
+                let (lab, plab) = (plabel(adv.l), qlabel(adv.pl));
+                let old: Vec<_> = qs.iter().filter(|(l, (pl, _))| *l == lab && *pl == plab).cloned().collect();
+                if old.len() != 1 || !s.polys.contains_key(&adv.l) {
+                    return false;
+                }
+                let newp = A::make_point(adv.pt2, beh);
+                if old[0].1 .1 == newp {
+                    return false;
+                }
+                qs.remove(&old[0]);
+                qs.insert((lab.clone(), (plab, newp.clone())));
+                let tv = s.polys[&adv.l].evaluate(&newp);
+                let d: A::F = delta(beh, "plus");
+                evals.insert((lab, newp), if adv.pat == "plus" { tv + d } else { tv });
+                true
+            }
+            _ => false,
+        },
         // ---- statement: commitment to another polynomial under the same label ----
         "comm_swap" => {
             let spec = match beh.polys.iter().find(|p| p.l == adv.l) {
@@ -1013,9 +1035,9 @@ pub fn apply_adv<A: Adapter>(
                 }
                 Stmt::Batch { comms, qs, evals, proof } => {
                     let cmap: BTreeMap<&String, &LabeledCommitment<Comm<A>>> = comms.iter().map(|c| (c.label(), c)).collect();
-                    let mut groups: BTreeMap<&String, (&A::Pt, BTreeSet<&String>)> = BTreeMap::new();
+                    let mut groups: BTreeMap<(&String, &A::Pt), (&A::Pt, BTreeSet<&String>)> = BTreeMap::new();
                     for (l, (pl, pt)) in qs.iter() {
-                        groups.entry(pl).or_insert((pt, BTreeSet::new())).1.insert(l);
+                        groups.entry((pl, pt)).or_insert((pt, BTreeSet::new())).1.insert(l);
                     }
                     if groups.len() != proof.len() || g >= proof.len() {
                         return false;
